@@ -36,7 +36,10 @@ func ZipTypeNew(metatype *Type, args Tuple, kwargs StringDict) (Object, error) {
 		item := args[i]
 		iter, err := Iter(item)
 		if err != nil {
-			return nil, ExceptionNewf(TypeError, "zip argument #%d must support iteration", i+1)
+			if IsException(TypeError, err) {
+				err = ExceptionNewf(TypeError, "zip argument #%d must support iteration", i+1)
+			}
+			return nil, err
 		}
 		itTuple[i] = iter
 	}
